@@ -18,6 +18,7 @@ SHAPES = {
     "dec": [2500.75, 2500.5, 2500.25, 2500.0],
     "single": [1234.5],
     "irregular": [10.0, 10.25, 11.0, 14.5],
+    "returning": [10.0, 10.5, 11.0, 10.0],        # not monotonic: the last sample equals the first, the first increment is 0.5
 }
 # tall indexes: row counts at and around the block sizes a buffered writer might use (the model's histories do not depend on the
 # shape, so every history admitted for "inc" is also a history for these)
